@@ -61,6 +61,7 @@ def run(ck, fb):
     r11g(ck, fb)
     r11h(ck, fb)
     r11i(ck, fb)
+    r11j(ck, fb)
 
 
 def _run0(ck, fb):
@@ -500,3 +501,55 @@ def r11i(ck, fb, R='R11i'):
         ck.require(ok, R, 'update_instance:filed-under-the-stored-owner', u.where(),
                    'after Service::update_instance kept the previous owner of an address (HTTP copy of a gRPC-registered instance) the key stays in the '
                    'incoming client\'s set: the index lists for "2_G" an instance that belongs to "1_7"', 'corrected when the stored client_id differs')
+
+
+def r11j(ck, fb, R='R11j'):
+    ck.rule(R, 'a replaced owner forgets the address, whoever replaces it: after Service::update_instance reported a replaced owner (second element of '
+               'its answer is Some) every path of NamingActor::update_instance to the return takes the key out of that owner\'s set; the only ways '
+               'around are "no owner was replaced", the early return for UpdateOtherClusterMetaData and a missing set. A clean-up that is tied to a '
+               'property of the NEW registration (it has a client id, it is a gRPC one) leaves the key with the old connection when an HTTP / console '
+               'update or a raft entry takes the address over')
+    u = ck.body(NA + 'update_instance', R)
+    if not u:
+        return
+    su = u.calls(r'Service::update_instance$')
+    if not ck.require(len(su) == 1, R, 'update_instance:calls-service', u.where(), 'NamingActor::update_instance does not call Service::update_instance exactly once'):
+        return
+    tr = Taint(u, call_src=lambda t: (t.get('f') or {}).get('d', '').endswith('Service::update_instance'))
+    tk = Taint(u, call_src=lambda t: (t.get('f') or {}).get('d', '').endswith('InstanceKey::new_by_service_key'))
+    sinks = []
+    for s in u.calls(r'HashSet::<T, S, A>::remove$'):
+        if len(s.args) < 2 or not tk.op_tainted(s.args[1]):
+            continue
+        gm = [g for g in util.mut_calls_on_field(u, 'client_instance_set', r'HashMap::<K, V, S, A>::get_mut$')
+              if cfg.dominates_blocks(u, {g.bb}, s.bb) and tr.op_tainted(g.args[1])]
+        if gm:
+            sinks.append(s)
+    ck.floor(R, 'removals from the replaced owner\'s set', len(sinks), 1)
+    esc = set()
+    some_dst = []
+    for (s0, d0, lab0, t0) in cfg.switch_edges(u):
+        desc = cfg.describe_operand(u, t0['discr'])
+        if desc['k'] != 'discr':
+            continue
+        pd = cfg.describe_operand(u, {'cp': desc['pl']})
+        names = dict((v, n) for v, n in (desc.get('variants') or []))
+        tested = [x[0] for x in t0['targets']]
+        vs = [n for v, n in (desc.get('variants') or []) if v not in tested] if lab0[1] == 'otherwise' else [names.get(lab0[1], lab0[1])]
+        txt = cfg.fmt_desc(pd)
+        if 'Service::update_instance).1' in txt:
+            if vs == ['None']:
+                esc.add((s0, d0, lab0))
+            elif vs == ['Some']:
+                some_dst.append(d0)
+        elif 'Service::update_instance).0' in txt and vs == ['UpdateOtherClusterMetaData']:
+            esc.add((s0, d0, lab0))
+    look = [g for g in util.mut_calls_on_field(u, 'client_instance_set', r'HashMap::<K, V, S, A>::get_mut$') if tr.op_tainted(g.args[1])]
+    esc |= set(util.option_edges(u, look, 'None'))
+    start = u.blocks[su[0].bb]['t'].get('t')
+    free = cfg.reach_from(u, [start], blocked_blocks={s.bb for s in sinks}, blocked_edges=esc)
+    leak = [r for r in u.return_blocks() if r in free]
+    ck.require(bool(some_dst) and not leak, R, 'update_instance:replaced-owner-always-forgets', u.where(leak[0]) if leak else u.where(),
+               'after Service::update_instance reported a replaced owner the function can return without taking the key out of that owner\'s set: the '
+               'address stays recorded for a connection it no longer belongs to (QueryClientInstanceCount counts it there), also after the instance '
+               'is gone', 'every path with a replaced owner reaches the removal')
